@@ -274,7 +274,19 @@ func c16Gen(seed int64, idx int) *c16Case {
 			typ = yang.S("type", "enumeration")
 			c.model = &yang.RType{Kind: "enumeration"}
 			for _, n := range names[:r2] {
-				typ.Add(yang.S("enum", n))
+				e := yang.S("enum", n)
+				// substatements of an enum describe it; they do not take it out of the value space
+				switch r.Intn(6) {
+				case 0:
+					e.Add(yang.S("status", "obsolete"))
+				case 1:
+					e.Add(yang.S("status", "deprecated"))
+				case 2:
+					e.Add(yang.S("description", "the value "+n))
+				case 3:
+					e.Add(yang.S("value", fmt.Sprint(100+len(c.model.Enums))))
+				}
+				typ.Add(e)
 				c.model.Enums = append(c.model.Enums, n)
 			}
 			for _, n := range names {
